@@ -68,9 +68,29 @@ package data
 //@ props C09
 
 //@ func data.AppendEncodeUnixTime
+//@ at call google.golang.org/protobuf/encoding/protowire.AppendTag#1 assert Seconds-is-wire-number-1: callee_num == 1 && callee_typ == 0
+//@ at call google.golang.org/protobuf/encoding/protowire.AppendVarint#1 assert Seconds-value-is-written: callee_v == uint64(node.Seconds.x)
+//@ at call google.golang.org/protobuf/encoding/protowire.AppendTag#2 assert FractionalNanoseconds-is-wire-number-2-fixed32: callee_num == 2 && callee_typ == 5 && node.FractionalNanoseconds.m == 2
+//@ at call google.golang.org/protobuf/encoding/protowire.AppendFixed32#1 assert FractionalNanoseconds-value-is-written: callee_v == uint32(node.FractionalNanoseconds.v.x)
 //@ ensures encoded-length: len(result) == len(enc) + sizeTag(1) + sizeVarint(uint64(node.Seconds.x)) + ite(node.FractionalNanoseconds.m == 2, sizeTag(2) + 4, 0)
 
 //@ func data.AppendEncodeUnixFSData
+// C09 (encode side): each logical field is written under the schema's wire number and wire type, only
+// when it is present, with its own value.
+//@ at call google.golang.org/protobuf/encoding/protowire.AppendTag#1 assert DataType-is-wire-number-1: callee_num == 1 && callee_typ == 0 && (true)
+//@ at call google.golang.org/protobuf/encoding/protowire.AppendTag#2 assert Data-is-wire-number-2: callee_num == 2 && callee_typ == 2 && (node.Data.m == 2)
+//@ at call google.golang.org/protobuf/encoding/protowire.AppendTag#3 assert FileSize-is-wire-number-3: callee_num == 3 && callee_typ == 0 && (node.FileSize.m == 2)
+//@ at call google.golang.org/protobuf/encoding/protowire.AppendTag#4 assert BlockSizes-is-wire-number-4: callee_num == 4 && callee_typ == 0 && (true)
+//@ at call google.golang.org/protobuf/encoding/protowire.AppendTag#5 assert HashType-is-wire-number-5: callee_num == 5 && callee_typ == 0 && (node.HashType.m == 2)
+//@ at call google.golang.org/protobuf/encoding/protowire.AppendTag#6 assert Fanout-is-wire-number-6: callee_num == 6 && callee_typ == 0 && (node.Fanout.m == 2)
+//@ at call google.golang.org/protobuf/encoding/protowire.AppendTag#7 assert Mode-is-wire-number-7: callee_num == 7 && callee_typ == 0 && (node.Mode.m == 2)
+//@ at call google.golang.org/protobuf/encoding/protowire.AppendTag#8 assert Mtime-is-wire-number-8: callee_num == 8 && callee_typ == 2 && (node.Mtime.m == 2)
+//@ at call google.golang.org/protobuf/encoding/protowire.AppendVarint#1 assert DataType-value-is-written: callee_v == uint64(node.DataType.x)
+//@ at call google.golang.org/protobuf/encoding/protowire.AppendVarint#2 assert FileSize-value-is-written: callee_v == uint64(node.FileSize.v.x)
+//@ at call google.golang.org/protobuf/encoding/protowire.AppendVarint#4 assert HashType-value-is-written: callee_v == uint64(node.HashType.v.x)
+//@ at call google.golang.org/protobuf/encoding/protowire.AppendVarint#5 assert Fanout-value-is-written: callee_v == uint64(node.Fanout.v.x)
+//@ at call google.golang.org/protobuf/encoding/protowire.AppendVarint#6 assert Mode-value-is-written: callee_v == uint64(node.Mode.v.x)
+//@ at call google.golang.org/protobuf/encoding/protowire.AppendBytes#1 assert Data-bytes-are-written: callee_v == node.Data.v.x
 //@ at call data.AppendEncodeUnixTime#1 assert mtime-length-prefix-matches-nested-message: size == sizeTag(1) + sizeVarint(uint64(mtime.Seconds.x)) + ite(mtime.FractionalNanoseconds.m == 2, sizeTag(2) + 4, 0)
 
 //@ func (*data._UnixFSData).Permissions
@@ -78,3 +98,7 @@ package data
 
 //@ func data.DefaultPermissions
 //@ ensures by-type: result == ite(u.DataType.x == 2, 420, ite(u.DataType.x == 1, 493, ite(u.DataType.x == 5, 493, 0)))
+
+//@ func data.AppendEncodeUnixFSMetadata
+//@ prop C09
+//@ at call google.golang.org/protobuf/encoding/protowire.AppendTag#1 assert MimeType-is-wire-number-1: callee_num == 1 && callee_typ == 2 && node.MimeType.m == 2
